@@ -117,6 +117,21 @@ def run_instance(inst):
                 b, p = fp.graphutils.max_bottleneck_path(G, "flow")
                 ev["ret"] = NONE if b is None else (int(b) if float(b).is_integer() else NONE)
                 ev["paths"] = [list(p)] if p is not None else []
+            elif name == "scc_stats":          # stDiGraph: statistics of the strongly connected components, counted in edges
+                ev["ret"] = int(H.get_number_of_nontrivial_SCCs())
+                ev["ret2"] = int(H.get_size_of_largest_SCC())
+                ev["ret3"] = int(H.get_avg_size_of_non_trivial_SCC())
+            elif name == "flow_width":         # stDAG: fewest source-to-sink paths covering every inner edge, none more often than its flow
+                ign = [tuple(inv.get(x, x) for x in e) for e in op[1]]
+                ev["ret"] = int(H.get_flow_width("flow", edges_to_ignore=ign))
+            elif name == "max_flow":           # largest flow value over the non-ignored edges (synthetic edges carry none: ignored)
+                ign = set(H.source_sink_edges) | {tuple(inv.get(x, x) for x in e) for e in op[1]}
+                ev["ret"] = fx(H.get_max_flow_value_and_check_non_negative_flow("flow", ign))
+            elif name == "nonzero":
+                ign = {tuple(inv.get(x, x) for x in e) for e in op[1]}
+                ev["rete"] = sorted(ren([list(e) for e in H.get_non_zero_flow_edges("flow", ign)], syn))
+            elif name == "conserves":
+                ev["ret"] = 1 if fp.graphutils.check_flow_conservation(G, "flow") else 0
             elif name == "max_occurrence":
                 # op: ["max_occurrence", seq (list of edges), paths (lists of nodes), lengths ([[u, v, len], ...] or [])]
                 seq = [tuple(e) for e in op[1]]
@@ -131,6 +146,7 @@ def run_instance(inst):
         ev.setdefault("paths", [])
         ev.setdefault("weights", [])
         ev.setdefault("ret2", NONE)
+        ev.setdefault("ret3", NONE)
         events.append(ev)
     out["events"] = events
     out["timeout"] = False
